@@ -452,6 +452,10 @@ func (c *Ctx) curtailTest(fn *ssa.Function, cond ssa.Value, L, P *ssa.Parameter,
 	}
 	want := keyDesc(idx)
 	return check(inner, hl, hp, func(v ssa.Value) bool {
+		// the index handed to the helper as an argument
+		if a, ok := args[ssax.Strip(v)]; ok {
+			return sameSource(a, idx)
+		}
 		d := keyDesc(v)
 		if d == "" || d != want {
 			return false
